@@ -19,6 +19,12 @@ CLAIMED = {
         "Trusted: the AST matcher; handlers do not mutate Params; ambiguous decompositions (spanning classes) are only checked for membership.",
         "DESIGN.md section 4 C02",
     ),
+    "C03": (
+        "runtime monitoring: (A) handler-boundary scheduler producing chosen interleavings of 2..4 in-flight requests, each request compared with its solo run; (B) free-running stress in a -race build with race-report parsing/attribution, solo-outcome comparison and cache invariant hook; (C) porcupine linearizability check of concurrent cache histories",
+        "Tens of thousands of distinct schedules per quick run (all interleavings for request pairs with <= 4 points), over router shapes with global middleware added by several Use calls, caches of capacity 1..3, HEAD fallback, 404/405 and recovered-panic prologues: every request's trace, params and response equal its solo run and in-flight requests never share a context; 160k (quick) free-running requests under the race detector with zero reports attributed to the router; concurrent cache histories linearizable.",
+        "Trusted: solo run on a fresh identical router as specification. Race detector sees executed access pairs only; interleavings inside library code are reached only as far as the Go scheduler produces them (B), exactly at handler boundaries (A).",
+        "DESIGN.md section 4 C03, section 5",
+    ),
     "C04": (
         "runtime monitoring: trace-specification monitor - enter/leave events recorded by instrumented handlers are compared with the trace predicted by a reference scope model + onion interpreter over generated registration programs",
         "For every route of every generated registration program (nested Group/Controller, Use at any point incl. after routes, variadic and later Route.Use middleware, NotFound/NotAllowed, handlers calling Next 0/1/2 times) the recorded per-request trace must equal the predicted one; also for not-found and wrong-method requests.",
